@@ -258,7 +258,11 @@ class Tracker(Monitor):
                     req['started'] = True
                 elif state == ProcessStates.RUNNING:
                     wait_exit = run.prog_of(req['namespec'])[1].get('wait_exit')
-                    if wait_exit and req['sender_state'] == 'DISTRIBUTION':
+                    # (wait_exit holds for every plan that starts an application - automatic start, restart_sequence,
+                    # start / restart_application - not for the start of one process, which is out of any sequence)
+                    if wait_exit and (req['sender_state'] == 'DISTRIBUTION' or
+                                      (req['sender'], req['inc'], req['namespec'].split(':')[0], req['epoch'])
+                                      not in self.process_epochs):
                         req['running'] = True
                     else:
                         self.resolve(req, 'running')
